@@ -213,7 +213,11 @@ func GenLeafPred(t *rapid.T, s Schema, crossOneIn int) *gen.Pred {
 	}
 	kind := f.Type
 	// Sometimes compare a field with a literal of another type (unparsable values).
-	if rapid.IntRange(0, crossOneIn-1).Draw(t, "p-cross") == 0 {
+	if f.Type == "bool" || f.Type == "obj" {
+		// a field that is a JSON boolean, object or array: a typed comparison cannot convert it
+		// (the record is kept and flagged), a string matcher sees its text
+		kind = rapid.SampledFrom([]string{"str", "int", "int", "dur", "bytes"}).Draw(t, "p-composite-kind")
+	} else if rapid.IntRange(0, crossOneIn-1).Draw(t, "p-cross") == 0 {
 		kind = rapid.SampledFrom([]string{"str", "int", "dur", "bytes", "ip"}).Draw(t, "p-crosskind")
 	}
 	cmpOps := []string{"==", "!=", ">", ">=", "<", "<="}
